@@ -232,6 +232,17 @@ func successors(a aval, remotes []sourceaddrs.RemoteSource) (out []aval, panics 
 			try("finaladdr:"+rm.String(), func() { add(v.FinalSourceAddr(rm)) })
 		}
 	case sourceaddrs.RemotePackage:
+		// "point a parsed address at a mirror": the same parts with another host, written the way a person
+		// writes host names (the parser and the constructor must agree on what they do with letter case)
+		if u := v.URL(); len(a.how) <= 2 && u != nil && u.Host == "example.com" {
+			try("make-with-host:Git.Mirror.Example.COM", func() {
+				cu := *u
+				cu.Host = "Git.Mirror.Example.COM"
+				if n, err := sourceaddrs.MakeRemoteSource(v.SourceType(), &cu, ""); err == nil {
+					add(n)
+				}
+			})
+		}
 		for _, s := range subSet {
 			s := s
 			if !sourceaddrs.ValidSubPath(s) {
@@ -325,10 +336,19 @@ func remoteSeeds(full bool) []string {
 	for _, f := range []string{"#fr ag", "#fr%20ag", "#é", "#a#b", "#"} {
 		out = append(out, "https://example.com/foo.tgz"+f, "git::https://example.com/repo.git?ref=v1"+f)
 	}
+	// fragments behind a sub-path and a query (where they stay fragments), with a literal '%' and a needless escape
+	for _, f := range []string{"#100%25", "#rev%2541", "#a%41", "#fr%20ag", "#é", "#a%23b"} {
+		out = append(out, "https://example.com/foo.tgz//sub/dir?archive=tgz"+f, "git::https://example.com/repo.git//sub?ref=v1"+f, "https://example.com/foo.tgz?archive=tgz"+f)
+	}
 	// opaque and shorthand forms
 	for _, s := range []string{"git::ssh:git:pw@github.com/o/r.git", "git::ssh:git@github.com/o/r.git", "git::https:user@example.com/r.git//sub", "https:u:p@example.com/foo.tgz", "git::https:example.com/a@b.git",
 		"git::https:foo", "https:foo.tgz", "git::https:foo//sub", "github.com/o/r", "github.com/o/r.git", "github.com/o/r/sub", "github.com/o/r/sub/dir", "github.com/o/r?ref=x",
 		"github.com/o/r//sub", "github.com/o", "gitlab.com/o/r", "gitlab.com/o/r.git", "gitlab.com/o/r/a/b", "gitlab.com/o/r/a", "gitlab.com/o/r.git//sub?ref=v1", "github.com/o/rgit", "github.com/o/r/..", "GITHUB.com/o/r"} {
+		out = append(out, s)
+	}
+	// empty authority: the part before the sub-path separator is a scheme and nothing else
+	for _, s := range []string{"git::https:////example.com/r.git", "git::https:////user:pw@example.com/r.git", "git::https://", "git::ssh:////u@h/r", "git::https:////sub?ref=x", "git::https://?ref=x",
+		"https:////example.com/a.tgz", "git::https:///r.git", "git::https:///r.git//sub", "git::https:////", "git::HTTPS:////a/b"} {
 		out = append(out, s)
 	}
 	return out
@@ -480,7 +500,8 @@ func c06Cause(a aval, sig string) string {
 	if strings.Contains(sub, "?") {
 		return "sourceaddrs/round-trip/sub-path-contains-question-mark"
 	}
-	if u != nil && u.Fragment != "" && sub != "" {
+	if u != nil && u.Fragment != "" && sub != "" && u.RawQuery == "" && !u.ForceQuery {
+		// only without a query string: with one, the fragment stays a fragment when printed after the sub-path
 		return "sourceaddrs/round-trip/package-url-has-fragment-and-sub-path"
 	}
 	if strings.TrimSpace(sub) != sub {
@@ -733,6 +754,15 @@ func policyViolations(rs sourceaddrs.RemoteSource) []string {
 	if first, _, _ := strings.Cut(strings.TrimLeft(u.Opaque, "/"), "/"); strings.Contains(first, "@") {
 		out = append(out, "userinfo-in-opaque-url")
 	}
+	// what a fetcher is handed is the printed address: read as a URL it must not carry credentials either
+	// (a package URL that is a bare scheme followed by a sub-path "user:pw@host/x" prints as scheme://user:pw@host/x)
+	printed := rs.String()
+	if i := strings.Index(printed, "::"); i >= 0 && !strings.Contains(printed[:i], "/") && !strings.Contains(printed[:i], ":") {
+		printed = printed[i+2:]
+	}
+	if pu, err := url.Parse(printed); err == nil && pu.User != nil && u.User == nil {
+		out = append(out, "userinfo-in-printed-form")
+	}
 	q, err := url.ParseQuery(u.RawQuery)
 	if err != nil {
 		out = append(out, "query-does-not-parse")
@@ -891,6 +921,36 @@ func RunC07(tier string) int {
 		rep.Evaluations += st.Runs
 		rep.Extra["map_orders"] = st.summary()
 		fmt.Printf("  map-order part: seeds=%d runs=%d choice points=%d differing=%d\n", st.Tasks, st.Runs, st.Points, st.Differing)
+	}
+	// shorthand spellings whose sub-path, as written, has an empty, '.' or '..' segment: an expansion that tidies the
+	// path before the sub-path rule sees it would let them through as a clean object, so the verdict is demanded here
+	{
+		badN := 0
+		for _, pre := range []string{"github.com/o/r", "gitlab.com/o/r", "github.com/o/r.git", "GitHub.com/o/r"} {
+			for _, sub := range []string{"/a/../b", "/a/./b", "/a/b/", "/./a", "/a/..", "/a/.", "/mods/../../x", "/a/b/../c/"} {
+				for _, q := range []string{"", "?ref=v1"} {
+					s := pre + sub + q
+					badN++
+					rep.Evaluations++
+					for name, f := range map[string]func(string) (any, error){
+						"ParseSource":       func(x string) (any, error) { return sourceaddrs.ParseSource(x) },
+						"ParseRemoteSource": func(x string) (any, error) { return sourceaddrs.ParseRemoteSource(x) },
+						"ParseFinalSource":  func(x string) (any, error) { return sourceaddrs.ParseFinalSource(x) },
+					} {
+						var v any
+						var err error
+						if p := guard(func() { v, err = f(s) }); p != "" {
+							rep.Violation("sourceaddrs."+name+"/panic", fmt.Sprintf("%s(%q) panics: %s", name, s, p), "", nil)
+							continue
+						}
+						if err == nil {
+							rep.Violation("sourceaddrs."+name+"/shorthand-with-bad-sub-path-segment-accepted", fmt.Sprintf("%s(%q) accepted as %v although the sub-path as written has an empty, '.' or '..' segment", name, s, v), "", nil)
+						}
+					}
+				}
+			}
+		}
+		rep.Extra["shorthand_bad_sub_paths"] = badN
 	}
 	// constructor product
 	types := []string{"git", "https", "http", "GIT", "hg", "", "ssh"}
@@ -1275,13 +1335,20 @@ func RunC11(tier string) int {
 		}
 	}
 	// registry sub-path join (FinalSourceAddr)
-	for _, realSub := range subs {
-		for _, callerSub := range subs {
+	// sub-path segments are names, never URL text: percent signs and escapes stay as they are
+	joinSubs := append(append([]string{}, subs...), "mods%20v2", "a%2Fb", "%2e%2e", "mods/%2e%2e", "100%", "a%zz/b", "é/ü")
+	for _, realSub := range joinSubs {
+		for _, callerSub := range joinSubs {
 			rep.Evaluations++
 			rs := sourceaddrs.MustParseSource("git::https://example.com/r.git").(sourceaddrs.RemoteSource).Package().SourceAddr(realSub)
 			g := sourceaddrs.MustParseSource("example.com/ns/name/sys").(sourceaddrs.RegistrySource)
 			if callerSub != "" {
-				g = sourceaddrs.MustParseSource("example.com/ns/name/sys//" + callerSub).(sourceaddrs.RegistrySource)
+				gs, err := sourceaddrs.ParseSource("example.com/ns/name/sys//" + callerSub)
+				if err != nil {
+					rep.NoVerdict++
+					continue
+				}
+				g = gs.(sourceaddrs.RegistrySource)
 			}
 			got := g.FinalSourceAddr(rs)
 			want := strings.Trim(realSub+"/"+callerSub, "/")
